@@ -42,5 +42,129 @@ package keyvalue
 //@   ensures "noop" implies(isType(self, OpHandlerFunc) && noopfn(payload(self)), err == nil &&
 //@             cancelled(memCtx(txn)) == old(cancelled(memCtx(txn))) && cancelled(serCtx(txn)) == old(cancelled(serCtx(txn))) &&
 //@             txn.(*mem.transaction).released == old(txn.(*mem.transaction).released) && held(memMu(txn)) == old(held(memMu(txn))))
-//@   ensures "other-ctx" implies(!isType(txn, *mem.transaction), cancelled(memCtx(txn)) == old(cancelled(memCtx(txn))) && held(memMu(txn)) == old(held(memMu(txn)))) &&
+//@   ensures "other-ctx" implies(!isType(txn, *mem.transaction), cancelled(memCtx(txn)) == old(cancelled(memCtx(txn))) && held(memMu(txn)) == old(held(memMu(txn))) &&
+//@                      txn.(*mem.transaction).released == old(txn.(*mem.transaction).released)) &&
 //@                      implies(!isType(txn, *unsafeSerialTransaction), cancelled(serCtx(txn)) == old(cancelled(serCtx(txn))))
+
+// ---- Store (assumed for foreign stores; deterministic) ----
+
+//@ interface Store.Get(ctx context.Context, path string) (rec FileRecord, err error)
+//@   deterministic
+//@ interface Store.Set(ctx context.Context, path string, src FileRecord) (err error)
+//@   deterministic
+
+// ---- the serial fallback transaction ----
+
+//@ spec serInv(u *unsafeSerialTransaction) := u != nil && u.ctx != nil && u.abort != nil && cancels(u.abort, u.ctx) && u.store != nil && u.results != nil &&
+//@        u.nextOp >= 0 && !held(u.resultsMu) &&
+//@        forall(k, int, in(k, dom(u.results)) == (0 <= k && k < u.nextOp)) && forall(k, dom(u.results), u.results[k].Op == k)
+
+//@ func (u *unsafeSerialTransaction) newOp() (op OpID)
+//@   props C18
+//@   requires u != nil && u.nextOp >= 0 && u.nextOp < 1<<40
+//@   modifies u.nextOp
+//@   ensures "id" op == old(u.nextOp) && u.nextOp == old(u.nextOp) + 1
+//@   nopanic
+
+//@ func (u *unsafeSerialTransaction) setResult(op OpID, result OpResult)
+//@   props C18
+//@   requires u != nil && u.results != nil && !held(u.resultsMu)
+//@   modifies mapOf(u.results)
+//@   ensures "stored" in(op, dom(u.results)) && u.results[op] == result &&
+//@                    forall(k, int, implies(k != op, in(k, dom(u.results)) == old(in(k, dom(u.results))) && u.results[k] == old(u.results[k])))
+//@   nopanic
+
+//@ func abortErr(ctx context.Context, extraCtx context.Context) (err error)
+//@   props C18
+//@   requires ctx != nil
+//@   ensures "aborted" iff(err != nil, cancelled(ctx) || (extraCtx != nil && cancelled(extraCtx)))
+//@   ensures "class" implies(err != nil, err == context.Canceled)
+//@   pure
+//@   nopanic
+
+//@ spec shErr(u *unsafeSerialTransaction, handler OpHandler, w int, op OpID, rec FileRecord, e error) := retW("keyvalue.(OpHandler).Handle", 0, w, handler, u, mkstruct(OpResult, op, rec, e))
+//@ spec sameResultsBelow(u *unsafeSerialTransaction, n OpID) := forall(k, int, implies(0 <= k && k < n, u.results[k] == old(u.results[k])))
+
+//@ func (u *unsafeSerialTransaction) GetHandler(path string, handler OpHandler) (id OpID)
+//@   props C18 C14
+//@   requires serInv(u) && handler != nil && u.nextOp < 1<<40
+//@   modifies u.nextOp, mapOf(u.results), cancelled(u.ctx)
+//@   ensures "one-result" id == old(u.nextOp) && u.nextOp == old(u.nextOp) + 1 && u.results[id].Op == id && sameResultsBelow(u, id)
+//@   ensures "aborted" implies(old(cancelled(u.ctx)), u.results[id].Record == nil && u.results[id].Err == context.Canceled && world() == old(world()))
+//@   ensures "get" implies(!old(cancelled(u.ctx)), u.results[id].Record == old(ret("keyvalue.(Store).Get", 0, u.store, u.ctx, path)) &&
+//@                   implies(old(ret("keyvalue.(Store).Get", 1, u.store, u.ctx, path)) != nil, u.results[id].Err == old(ret("keyvalue.(Store).Get", 1, u.store, u.ctx, path))) &&
+//@                   implies(old(ret("keyvalue.(Store).Get", 1, u.store, u.ctx, path)) == nil, u.results[id].Err ==
+//@                           old(shErr(u, handler, worldAfter("keyvalue.(Store).Get", u.store, u.ctx, path), u.nextOp, ret("keyvalue.(Store).Get", 0, u.store, u.ctx, path), nil))))
+//@   ensures "inv" serInv(u) && implies(old(cancelled(u.ctx)), cancelled(u.ctx))
+//@   ensures "noop-handler" implies(isType(handler, OpHandlerFunc) && noopfn(payload(handler)), cancelled(u.ctx) == old(cancelled(u.ctx)) &&
+//@                   implies(!old(cancelled(u.ctx)), u.results[id].Err == old(ret("keyvalue.(Store).Get", 1, u.store, u.ctx, path))))
+//@   nopanic
+
+//@ func (u *unsafeSerialTransaction) Get(path string) (id OpID)
+//@   props C18 C14
+//@   requires serInv(u) && u.nextOp < 1<<40
+//@   modifies u.nextOp, mapOf(u.results)
+//@   ensures "one-result" id == old(u.nextOp) && u.nextOp == old(u.nextOp) + 1 && u.results[id].Op == id && sameResultsBelow(u, id)
+//@   ensures "aborted" implies(cancelled(u.ctx), u.results[id].Record == nil && u.results[id].Err == context.Canceled && world() == old(world()))
+//@   ensures "get" implies(!cancelled(u.ctx), u.results[id].Record == old(ret("keyvalue.(Store).Get", 0, u.store, u.ctx, path)) &&
+//@                   u.results[id].Err == old(ret("keyvalue.(Store).Get", 1, u.store, u.ctx, path)))
+//@   ensures "inv" serInv(u)
+//@   nopanic
+
+//@ func (u *unsafeSerialTransaction) SetHandler(path string, src FileRecord, contents blob.Blob, handler OpHandler) (id OpID)
+//@   props C18 C14
+//@   requires serInv(u) && handler != nil && u.nextOp < 1<<40
+//@   modifies u.nextOp, mapOf(u.results), cancelled(u.ctx)
+//@   ensures "one-result" id == old(u.nextOp) && u.nextOp == old(u.nextOp) + 1 && u.results[id].Op == id && sameResultsBelow(u, id)
+//@   ensures "after-abort-no-effect" implies(old(cancelled(u.ctx)), u.results[id].Err == context.Canceled && world() == old(world()))
+//@   ensures "set" implies(!old(cancelled(u.ctx)), u.results[id].Record == nil &&
+//@                   implies(old(ret("keyvalue.(Store).Set", 0, u.store, u.ctx, path, src)) != nil, u.results[id].Err == old(ret("keyvalue.(Store).Set", 0, u.store, u.ctx, path, src))) &&
+//@                   implies(old(ret("keyvalue.(Store).Set", 0, u.store, u.ctx, path, src)) == nil, u.results[id].Err ==
+//@                           old(shErr(u, handler, worldAfter("keyvalue.(Store).Set", u.store, u.ctx, path, src), u.nextOp, nil, nil))))
+//@   ensures "inv" serInv(u) && implies(old(cancelled(u.ctx)), cancelled(u.ctx))
+//@   ensures "noop-handler" implies(isType(handler, OpHandlerFunc) && noopfn(payload(handler)), cancelled(u.ctx) == old(cancelled(u.ctx)) &&
+//@                   implies(!old(cancelled(u.ctx)), u.results[id].Err == old(ret("keyvalue.(Store).Set", 0, u.store, u.ctx, path, src)) &&
+//@                           world() == old(worldAfter("keyvalue.(Store).Set", u.store, u.ctx, path, src))))
+//@   nopanic
+
+//@ func (u *unsafeSerialTransaction) Set(path string, src FileRecord, contents blob.Blob) (id OpID)
+//@   props C18 C14
+//@   requires serInv(u) && u.nextOp < 1<<40
+//@   modifies u.nextOp, mapOf(u.results)
+//@   ensures "one-result" id == old(u.nextOp) && u.nextOp == old(u.nextOp) + 1 && u.results[id].Op == id && sameResultsBelow(u, id)
+//@   ensures "after-abort-no-effect" implies(cancelled(u.ctx), u.results[id].Err == context.Canceled && world() == old(world()))
+//@   ensures "set" implies(!cancelled(u.ctx), u.results[id].Record == nil && u.results[id].Err == old(ret("keyvalue.(Store).Set", 0, u.store, u.ctx, path, src)) &&
+//@                   world() == old(worldAfter("keyvalue.(Store).Set", u.store, u.ctx, path, src)))
+//@   ensures "inv" serInv(u)
+//@   nopanic
+
+//@ func (u *unsafeSerialTransaction) Commit(ctx context.Context) (rs []OpResult, err error)
+//@   props C18 C14
+//@   requires serInv(u) && u.nextOp < 1<<40
+//@   modifies cancelled(u.ctx)
+//@   loop 1 invariant "copied" len(results) == u.nextOp && opCount == u.nextOp && forall(k, visited, results[k] == u.results[k])
+//@   ensures "aborted" iff(err != nil, old(cancelled(u.ctx)) || (ctx != nil && old(cancelled(ctx))))
+//@   ensures "results" implies(err == nil, len(rs) == u.nextOp && forall(i, 0, len(rs), rs[i] == u.results[i] && rs[i].Op == i))
+//@   ensures "ended" implies(err == nil, cancelled(u.ctx))
+//@   nopanic
+
+//@ func (u *unsafeSerialTransaction) Abort() (err error)
+//@   props C18
+//@   requires serInv(u)
+//@   modifies cancelled(u.ctx)
+//@   ensures "aborted" err == nil && cancelled(u.ctx)
+//@   nopanic
+
+//@ func TransactionOrSerial(store Store, options TransactionOptions) (txn Transaction, err error)
+//@   props C18 C14
+//@   requires store != nil
+//@   ensures "native" implies(implements(store, TransactionStore), txn == old(ret("keyvalue.(TransactionStore).Transaction", 0, store, options)) &&
+//@                      err == old(ret("keyvalue.(TransactionStore).Transaction", 1, store, options)))
+//@   ensures "serial" implies(!implements(store, TransactionStore), err == nil && isType(txn, *unsafeSerialTransaction) && fresh(txn.(*unsafeSerialTransaction)) &&
+//@                      serInv(txn.(*unsafeSerialTransaction)) && txn.(*unsafeSerialTransaction).store == store && txn.(*unsafeSerialTransaction).nextOp == 0 &&
+//@                      !cancelled(txn.(*unsafeSerialTransaction).ctx))
+//@   nopanic
+
+//@ interface TransactionStore.Transaction(options TransactionOptions) (txn Transaction, err error)
+//@   deterministic
+//@   ensures "result" implies(err == nil, txn != nil)
